@@ -1101,6 +1101,18 @@ func c20DomainEnv(r *Rand) (vars []c20Var, names, lvals []string) {
 			lvals = append(lvals, name)
 		case k <= 2 && i > 0:
 			vars = append(vars, c20Var{name: name, val: pool[r.Intn(i)]})
+			if c20LvalChainMode {
+				lvals = append(lvals, name)
+			}
+		case c20ExprTextMode && k <= 5 && i > 0:
+			// an expression over the earlier variables (no assignments to keep the oracle simple)
+			sub := c20DomainExpr(r, 1+r.Intn(2), &c20DomOpts{names: pool[:i], lvals: []string{"qq"}, small: true}).parenthesize()
+			if text, ok := c20ExprText(sub, false); ok && !strings.Contains(text, "qq") {
+				vars = append(vars, c20Var{name: name, val: text})
+			} else {
+				vars = append(vars, c20Var{name: name, val: "3"})
+				lvals = append(lvals, name)
+			}
 		default:
 			v := int64(r.Intn(20)) - 4
 			if r.Intn(4) == 0 {
@@ -1229,6 +1241,20 @@ func (o *c20Oracle) readVar(name string, hops int) *big.Int {
 	}
 	n, ok := c20OracleNumber(v)
 	if !ok {
+		if c20ExprTextMode && hops < 20 {
+			// repair-validation mode (C20-expr-text-value): the text is an expression
+			if x, ok := c20Parse(strings.Trim(o.env[name], " \t\n")); ok {
+				if sub, ok := c20FromSyntax(x); ok {
+					o.depth++
+					defer func() { o.depth-- }()
+					if o.depth > 20 {
+						o.excl = "chain"
+						return big.NewInt(0)
+					}
+					return o.eval(sub)
+				}
+			}
+		}
 		o.excl = "value-not-literal"
 		return big.NewInt(0)
 	}
@@ -1238,6 +1264,15 @@ func (o *c20Oracle) readVar(name string, hops int) *big.Int {
 	}
 	return n
 }
+
+// c20ExprTextMode (env C20_EXPR_TEXT_VALUES=1) lifts the generator exclusion "variable values are not
+// expression text" so that a candidate repair of C20-expr-text-value can be compared with bash; it is
+// never set by ./check.
+var c20ExprTextMode = os.Getenv("C20_EXPR_TEXT_VALUES") == "1"
+
+// c20LvalChainMode (env C20_LVALUE_CHAINS=1) lifts the exclusion "targets of op=, ++, -- do not hold a
+// name", to validate a candidate repair of C20-lvalue-no-chase; never set by ./check.
+var c20LvalChainMode = os.Getenv("C20_LVALUE_CHAINS") == "1"
 
 func c20Bool(b bool) *big.Int {
 	if b {
@@ -1345,7 +1380,7 @@ func (o *c20Oracle) eval(e *aExpr) *big.Int {
 				o.excl = "incdec-nonname"
 				return zero
 			}
-			if c20ValidName(strings.Trim(o.env[e.x.w], " \t\n")) {
+			if !c20LvalChainMode && c20ValidName(strings.Trim(o.env[e.x.w], " \t\n")) {
 				o.excl = "lvalue-holds-name"
 				return zero
 			}
@@ -1387,7 +1422,7 @@ func (o *c20Oracle) eval(e *aExpr) *big.Int {
 			}
 			var cur *big.Int
 			if e.op != "assgn" {
-				if c20ValidName(strings.Trim(o.env[e.x.w], " \t\n")) {
+				if !c20LvalChainMode && c20ValidName(strings.Trim(o.env[e.x.w], " \t\n")) {
 					o.excl = "lvalue-holds-name"
 					return zero
 				}
